@@ -681,6 +681,13 @@ func (a *Agent) gatherCandidatesLocalUDPMux(ctx context.Context) error { //nolin
 			}
 
 			c, err := NewCandidateHost(&hostConfig)
+			if err == nil && a.mDNSMode == MulticastDNSModeQueryAndGather {
+				// The candidate is announced under the mDNS name: give it its real address, as the
+				// interface path does, so that checks sent from it are matched to it.
+				if ip, ok := netip.AddrFromSlice(candidateIP); ok {
+					err = c.setIPAddr(ip.Unmap())
+				}
+			}
 			if err != nil {
 				closeConnAndLog(conn, a.log, "failed to create host mux candidate: %s %d: %v", candidateIP, udpAddr.Port, err)
 
